@@ -33,20 +33,14 @@ from ..gen import surface
 MODULES = ["ESV.Props.C05"]
 THEOREMS = [
     "ESV.Beh.check_sound", "ESV.Beh.validate_sound",
-    "ESV.C05.cycle_detected_iff", "ESV.C05.order_total", "ESV.C05.order_topological_counterexample",
-    "ESV.C05.witness_acyclic", "ESV.C05.witness_order", "ESV.C05.witness_does_not_compile",
-    "ESV.C05.order_topological_partial", "ESV.C05.compiles_of_topological", "ESV.C05.all_macros_compile_partial",
-    "ESV.C05.topoOrder_topological", "ESV.C05.topoOrder_complete",
+    "ESV.C05.order_topological", "ESV.C05.all_acyclic_compile", "ESV.C05.cycle_detected_iff", "ESV.C05.visit_never_stops",
+    "ESV.C05.visitStart_ok_iff", "ESV.C05.order_total", "ESV.C05.compiles_of_topological",
+    "ESV.C05.witness_acyclic", "ESV.C05.order_topological_counterexample", "ESV.C05.witness_does_not_compile",
     "ESV.C05.resolve_relative", "ESV.C05.resolve_absolute", "ESV.C05.resolve_lookup_first_match",
     "ESV.C05.resolve_lookup_none", "ESV.C05.resolve_rejects_dot_components",
 ]
 ROOT = G.ROOT
 FAKE_ROOT = "/T/R"      # two levels, like the real roots /tmp/<dir>
-# Which Lean function models `MacroResolutionOrderVisitor.visitStart`: "order" = the pinned code (BFS per root + merge);
-# "topo" = the verified repair `topoOrder` (stable Kahn: repeatedly the first vertex, in creation order, all of whose callees
-# are emitted).  After a `fix:` commit that replaces the merge by exactly that loop, set this to "topo" (the theorems
-# topoOrder_topological / topoOrder_complete then apply without guard) and drop the known finding macro_order_not_topological.
-ORDER_FIELD = os.environ.get("VERIF_C05_ORDER_FIELD", "topo")
 # What `exists` means for the model of `_resolve_imported_file`: "tree" = os.path.exists (files and directories, the pinned code);
 # "tree_files" = os.path.isfile (after a repair of known finding import_candidate_is_directory)
 EXISTS_FIELD = os.environ.get("VERIF_C05_EXISTS", "tree_files")
@@ -441,14 +435,11 @@ class Eval:
                 e, f = tag[1], tag[2]
                 self.stats["order_compared"] += 1
                 if "order" in e:
-                    if rep.get(ORDER_FIELD) != e["order"]:
-                        hint = " (it equals the model of the repair, topoOrder: set ORDER_FIELD = 'topo')" if rep.get("topo") == e["order"] else ""
-                        self.ties.append(("correspondence C05/order: macro_resolution_order differs from the Lean model" + hint, {"file": f, "impl": e["order"], "model": rep}))
-                    if ORDER_FIELD != "order":
-                        continue
+                    if rep.get("order") != e["order"]:
+                        self.ties.append(("correspondence C05/order: macro_resolution_order differs from the Lean model", {"file": f, "impl": e["order"], "model": rep}))
                     comp = rep.get("compile", {})
-                    # how tight the guard of order_topological_partial is on the generated inputs (model side)
-                    self.stats[f"guard_{rep.get('guard')}_model_compile_{'ok' if 'ok' in comp else 'fails'}"] += 1
+                    # informational: inputs the ordering of the pinned tree (ESV/Macro/Pinned.lean) would have ordered differently
+                    self.stats["pinned_order_" + ("same" if rep.get("pinned_order") == rep.get("order") else "differs")] += 1
                     m = NOT_FOUND.match(res.get("msg") or "") if res.get("error") == "SsbCompilerError" else None
                     if fe is e:
                         if comp.get("err") == "SsbCompilerError" and "name" in comp:
@@ -461,9 +452,9 @@ class Eval:
                                 self.ties.append(("correspondence C05/order: the compiler says 'Macro not found', the model does not", {"file": f, "impl": res.get("msg"), "model": comp}))
                     elif "raised" not in e and "ok" not in comp:
                         self.ties.append(("correspondence C05/order: the model predicts a failure for a file that compiled", {"file": f, "model": comp}))
-                    if rep.get("guard") and "ok" not in comp and all(c in [d[0] for d in G.abstract_input(self.case["files"][f], [])["defs"]] + e["in_macros"]
-                                                                       for d in G.abstract_input(self.case["files"][f], [])["defs"] for c in d[1]):
-                        self.ties.append(("model: guard holds but compileMacros fails (instance of all_macros_compile_partial fails)", {"file": f, "model": rep}))
+                    defs = G.abstract_input(self.case["files"][f], [])["defs"]
+                    if "ok" not in comp and all(c in [d[0] for d in defs] + e["in_macros"] for d in defs for c in d[1]):
+                        self.ties.append(("model: closed acyclic input but compileMacros fails (instance of all_acyclic_compile fails)", {"file": f, "model": rep}))
                 elif "order_error" in e:
                     # the message of this error is the string "None" on the pinned tree (util.f cannot evaluate v['name']),
                     # so the vertex the model names cannot be compared; the class and the fact are
@@ -854,7 +845,7 @@ def run(run: core.Run) -> int:
     if not prep["proofs_ok"] or not aud["ok"] or not prep["driver_ok"]:
         run.broken_tie("Lean obligations of C05 do not check (build/audit)", {"theorems": THEOREMS, "log": prep["log"][-3000:], "audit": {k: v for k, v in aud.items() if k != "theorems"}})
     if not quick and prep["proofs_ok"]:
-        ok, out = core.leanchecker(MODULES + ["ESV.Macro.Order", "ESV.Macro.OrderLemmas", "ESV.Macro.OrderThms", "ESV.Macro.Import"])
+        ok, out = core.leanchecker(MODULES + ["ESV.Macro.Order", "ESV.Macro.OrderLemmas", "ESV.Macro.OrderThms", "ESV.Macro.Pinned", "ESV.Macro.Import"])
         stats["leanchecker_ok"] = int(ok)
         if not ok:
             run.broken_tie("leanchecker rejects the C05 modules", {"log": out})
@@ -875,7 +866,7 @@ def run(run: core.Run) -> int:
         "trusted_base": ["Lean 4.33 kernel + propext/Classical.choice/Quot.sound", "Lean compiler for executing the validator and the models in the driver",
                          "harness lowering table harness/gen/surface.py and printer (cross-checked against the repo's parser on a sample)",
                          "harness textual inliner (harness/gen/macros_c05.py:Inliner) for the metamorphic oracle",
-                         "harness reading of the import rules of docs/language_spec.rst (doc_resolve)", "igraph is modelled as used (vertex/edge creation order, bfsiter), compared on every run"],
+                         "harness reading of the import rules of docs/language_spec.rst (doc_resolve)", "igraph is modelled as used (vertex creation order = order of first mention, in_edges, get_all_simple_paths), compared on every run"],
         "theorems": THEOREMS, "axioms": aud.get("theorems", {}), "tables": prep.get("tables"),
         "outcomes": {k: v for k, v in sorted(stats.items())}, "generator": gstats,
         "dag_shapes": {"groups": len(groups), "shapes_with_an_order_that_does_not_compile": dict(shapes_failing)},
